@@ -82,6 +82,9 @@ def run(ctx):
     for mode in MODES:
         _filter_clusters(rc, mode)
     _corners(rc)
+    res.rule("Q-dtype", "no ranking / filtering function stores a float score into an array that inherits the dtype of its argument (integer curves would truncate the scores)")
+    from . import detectors as _d
+    _d.dtype_guard(rc, "Q-dtype", ["knee_ranking", "postprocessing"])
     _smooth_ranking(rc)
     _q7(rc)
     res.assumptions += ["cluster labels are non-decreasing contiguous runs 0..max (C11-L1) - with a foreign clustering callable the order clause is an assumption",
@@ -280,6 +283,8 @@ def _smooth_ranking(rc: RuleCtx):
         w_e = [e for e in app_events if e not in fit_e]
         ok = len(fit_e) == 1 and len(w_e) == 1 and fit_e[0].args[0].equals(want_fit) and isinstance(w_e[0].args[0], Rat) and w_e[0].args[0].equals(want_w) \
             and fit_e[0].guard.kind == "true" and w_e[0].guard.kind == "true"
+        if not fit_e and not w_e:
+            raise AnalysisError(f"knee_ranking.smooth_ranking[{mode}]: the per-knee fit and weight are not collected by appends - shape not recognised")
         apps = {"fit": fit_e[0] if fit_e else None, "weights": w_e[0] if w_e else None}
         fname_, wname_ = (fit_e[0].target if fit_e else "fit"), (w_e[0].target if w_e else "weights")
         rng_ok = b_.visits(0, sym("K"))
